@@ -47,7 +47,7 @@ NormalForm == defect = NoDefect =>
 
 WantOf == CASE Prop = "C34" -> <<"snap", "back", "rt">>
             [] Prop = "C35" -> <<>>
-            [] Prop = "C36" -> <<"snap">>
+            [] Prop = "C36" -> <<"snap", "bsnap">>
             [] Prop = "C37" -> <<"bsnap", "bsame", "blazy">>
             [] OTHER -> <<"snap">>
 Case(allow) == [op |-> "file", file |-> file', allow |-> allow, want |-> WantOf, rule |-> defect'.rule]
